@@ -237,7 +237,7 @@ fn brute_force_webs(pg: &PG) -> HashSet<Row> {
 // numberings and builds
 // --------------------------------------------------------------------------------------
 
-const NUMBERINGS: [&str; 6] = ["boundaries-first", "boundaries-last", "interleaved", "random-permutation", "random-ids-with-gaps", "boundaries-first-spiders-shuffled"];
+const NUMBERINGS: [&str; 7] = ["boundaries-first", "boundaries-last", "interleaved", "random-permutation", "random-ids-with-gaps", "boundaries-first-spiders-shuffled", "some-ids-above-2^32"];
 
 /// ids[abstract vertex] = vertex id in the build
 fn numbering(which: usize, d: &WDesc, r: &mut Rng) -> Vec<V> {
@@ -284,6 +284,25 @@ fn numbering(which: usize, d: &WDesc, r: &mut Rng) -> Vec<V> {
             let mut pool: Vec<usize> = (0..(3 * n + 2)).collect();
             r.shuffle(&mut pool);
             ids[..n].copy_from_slice(&pool[..n]);
+        }
+        6 => {
+            // a random permutation of 0..n, then about a third of the vertices are moved to
+            // 2^32 + (a small id in use elsewhere, or their own): ids that agree in their low
+            // 32 bits, which named insertion in the hash backend allows
+            let mut order: Vec<usize> = (0..n).collect();
+            r.shuffle(&mut order);
+            for (id, a) in order.into_iter().enumerate() {
+                ids[a] = id;
+            }
+            let mut used_low: HashSet<usize> = HashSet::new();
+            for a in 0..n {
+                if r.chance(0.35) {
+                    let low = if r.chance(0.7) { r.below(n.max(1)) } else { ids[a] };
+                    if used_low.insert(low) {
+                        ids[a] = (1usize << 32) + low;
+                    }
+                }
+            }
         }
         _ => {
             for k in 0..nb {
@@ -677,6 +696,45 @@ fn gen_desc(r: &mut Rng, max_s: usize, allow_isolated: bool) -> WDesc {
     d
 }
 
+/// 30-130 spiders, sparse (a random tree plus a few extra edges; average degree 2-3), up to 8
+/// boundaries: vertex ids and matrix dimensions above 64 / 128 / 256 (the brute-force
+/// membership cross-check does not apply at this size; the linear-system oracle does).
+fn gen_desc_large(r: &mut Rng) -> WDesc {
+    let ns = *r.pick(&[30usize, 50, 66, 90, 130]) + r.below(8);
+    let colour_mode = r.below(4);
+    let spiders: Vec<(bool, bool)> = (0..ns)
+        .map(|i| {
+            let is_x = match colour_mode {
+                0 => false,
+                1 => true,
+                2 => i % 2 == 1,
+                _ => r.chance(0.5),
+            };
+            (is_x, r.chance(0.3))
+        })
+        .collect();
+    let mut edges = vec![];
+    for i in 1..ns {
+        if r.chance(0.04) {
+            continue; // a few components
+        }
+        let j = if r.chance(0.7) { i - 1 - r.below(3.min(i)) } else { r.below(i) };
+        edges.push((j, i));
+    }
+    let extra = r.below(ns / 3 + 1);
+    for _ in 0..extra {
+        let (a, b) = (r.below(ns), r.below(ns));
+        if a != b {
+            edges.push((a.min(b), a.max(b)));
+        }
+    }
+    edges.sort();
+    edges.dedup();
+    let nb = r.below(9);
+    let bnds: Vec<(usize, bool)> = (0..nb).map(|_| (r.below(ns), r.chance(0.5))).collect();
+    WDesc { spiders, edges, bnds }
+}
+
 /// all diagrams with `ns` spiders: colours x edge subsets x (<= 2 boundaries attached anywhere)
 fn tiny_space(ns: usize) -> usize {
     let pairs = ns * ns.saturating_sub(1) / 2;
@@ -764,7 +822,7 @@ pub fn run() {
         return;
     }
     c.set_rule(
-        "cases = diagrams (Z/X spiders, phases 0/pi, plain edges, 0-4 boundaries on spiders), each run under 6 vertex numberings (evaluations counts diagram x numbering executions); non-trivial when the diagram has >= 2 spiders and a web space of dimension >= 1; distinct = distinct diagram descriptions (64-bit hash)",
+        "cases = diagrams (Z/X spiders, phases 0/pi, plain edges, 0-4 boundaries on spiders), each run under 7 vertex numberings (evaluations counts diagram x numbering executions); non-trivial when the diagram has >= 2 spiders and a web space of dimension >= 1; distinct = distinct diagram descriptions (64-bit hash)",
     );
     c.assume("own-colour Pauli of a Z spider is Pauli X (drawn green, generated by firing it), of an X spider Pauli Z; Y counts as both");
     c.assume("web space = solution space of the edge-based F2 system on the subdivided (bipartite) diagram; cross-checked against the same system on the original diagram and, up to 12 spiders, against brute-force enumeration of firing sets");
@@ -790,6 +848,10 @@ pub fn run() {
     par_cases("random-with-isolated", n / 3, move |r, i| {
         let d = gen_desc(r, ms, true);
         check_desc("random-with-isolated", i, &d, r);
+    });
+    par_cases("large-sparse", t.pick(120usize, 20_000usize), move |r, i| {
+        let d = gen_desc_large(r);
+        check_desc("large-sparse", i, &d, r);
     });
     c.extra("exhaustive", json!(false));
 }
